@@ -162,7 +162,7 @@ def tv_events(rng, tier):
                     e.update({"ev": "Forward", "ber5": v5(b1), "bler5": v5(b2), "ber5s": v5(b1s), "bler5s": v5(b2s),
                               "c_tb": c[0], "c_eb": c[1], "c_tbl": c[2], "c_ebl": c[3], "sum5": -1, "none": [-1]})
                     if not none_mode and rng.random() < 0.5:
-                        e["sum5"] = v5(BlockErrorRate(block_size=B, reduction="sum")(X, Y))
+                        e["sum5"] = int(round(min(float(BlockErrorRate(block_size=B, reduction="sum")(X, Y)), 20000.0) * 100000))      # a count, not a rate: no clamp to [0, 1]
                         e["none"] = [int(v) for v in BlockErrorRate(block_size=B, reduction="none")(X, Y).tolist()]
                 evs.append(e)
             elif op == "compute":
@@ -206,6 +206,15 @@ def run(run):
     if not r.ok:
         raise tlc.TLCFailure("MC_Metrics: %s %s\n%s" % (r.errors, r.violated, r.stdout[-1500:]))
     run.add_tlc("MC_Metrics adversarial pool B=2 len<=6 (update x4, compute, reset, forward x4)", r)
+    # unbounded histories: inductive invariant discharged by Apalache (Init => IndInv, IndInv /\ Next => IndInv', IndInv => Sandwich)
+    obligations = [("Init", "IndInv", 0), ("IndInit", "IndInv", 1), ("IndInit", "Sandwich", 0)]
+    proved = []
+    for (ini, inv, ln) in obligations:
+        ok, secs, tail = tlc.apalache("MetricsInd", ini, inv, ln)
+        if ok is False:
+            raise tlc.TLCFailure("Apalache obligation %s => %s failed:\n%s" % (ini, inv, tail))
+        proved.append({"init": ini, "inv": inv, "length": ln, "result": "OK" if ok else "skipped: " + tail, "wall_s": round(secs, 1)})
+    run.extra["apalache_inductive_invariant"] = proved
     # seeded pool
     B2 = rng.choice([1, 2, 3, 4])
     px, py = [], []
